@@ -106,6 +106,17 @@ def rule_typeerror(ctx: Ctx) -> None:
 def rule_unions(ctx: Ctx) -> None:
     P = ctx.prog
     hu = P.func(f"{TY}._handle_union_types")
+    # the members that are compared are ALL the members of each union: a local holding get_args(...) is not narrowed by a
+    # filtering comprehension before the comparison (dropping "shared" members from the target removes the very member that
+    # would have accepted another source member)
+    narrowed = []
+    member_vars = {t.id for a in ast.walk(hu.node) if isinstance(a, ast.Assign) and isinstance(a.value, ast.Call) and dotted(a.value.func) == "get_args" for t in a.targets if isinstance(t, ast.Name)}
+    for a in [a for a in ast.walk(hu.node) if isinstance(a, ast.Assign) and any(isinstance(t, ast.Name) and t.id in member_vars for t in a.targets)]:
+        for comp in [x for x in ast.walk(a.value) if isinstance(x, (ast.GeneratorExp, ast.ListComp, ast.SetComp))]:
+            if any(g.ifs for g in comp.generators) and any(isinstance(y, ast.Name) and y.id in member_vars for g in comp.generators for y in ast.walk(g.iter)):
+                narrowed.append(a)
+    ctx.tri("3-unions", hu, narrowed[0] if narrowed else hu.node, bool(member_vars) and not narrowed, bool(narrowed), "all members of both unions take part in the comparison",
+            f"`{norm(narrowed[0])[:70] if narrowed else ''}` removes members from a union before the members are compared: a source member that is only acceptable through a removed target member is rejected", "members of the unions not traced", key="members-whole")
     quant = []
     for f_ in Scope(ctx, hu).funcs:
         d = Defs(f_)
@@ -286,8 +297,32 @@ def rule_readonly(ctx: Ctx) -> None:
             bad[0][1] + ": the change persists on the function (cached property) and other edges / later validations see the altered type", key="readonly")
 
 
+def rule_always_validated(ctx: Ctx) -> None:
+    """Only the user's `validate_type_annotations` setting can switch the check off: nothing in the package constructs a
+    pipeline with the flag forced to False, and nothing rebinds the flag of an existing pipeline (a pipeline assembled with the
+    check off and the flag "restored" afterwards has edges that were never compared - e.g. the edges that only exist after a join)."""
+    P = ctx.prog
+    n = 0
+    for fn in P.functions.values():
+        for c in [c for c in ast.walk(fn.node) if isinstance(c, ast.Call)]:
+            for k in c.keywords:
+                if k.arg == "validate_type_annotations":
+                    n += 1
+                    forced = isinstance(k.value, ast.Constant) and k.value.value is False
+                    ctx.add("8-always-validated", fn, c, not forced, "the flag is passed on from the caller / the receiver" if not forced else
+                            f"`{norm(c)[:60]}` builds a pipeline with validate_type_annotations=False regardless of the user's setting: the edges between its functions are never type-checked", key=f"forced {fn.name}")
+        for a in [a for a in ast.walk(fn.node) if isinstance(a, (ast.Assign, ast.AnnAssign, ast.AugAssign))]:
+            for t in (a.targets if isinstance(a, ast.Assign) else [a.target]):
+                if isinstance(t, ast.Attribute) and t.attr == "validate_type_annotations":
+                    n += 1
+                    ok = fn.name == "__init__"
+                    ctx.add("8-always-validated", fn, a, ok, "the flag is set by the constructor" if ok else
+                            f"`{norm(a)[:60]}` rebinds the flag of an existing pipeline outside its constructor: what the flag says and what was actually validated come apart", key=f"rebinds {fn.name}")
+    ctx.floor("8-always-validated", n, 1)
+
+
 def check(ctx: Ctx) -> None:
-    for rule in (rule_flag, rule_typeerror, rule_unions, rule_reduction, rule_extraction, rule_wildcards, rule_readonly):
+    for rule in (rule_flag, rule_typeerror, rule_unions, rule_reduction, rule_extraction, rule_wildcards, rule_readonly, rule_always_validated):
         ctx.run(rule)
 
 
